@@ -34,6 +34,14 @@ def main():
     try:
         r = subprocess.run(["git", "-C", wt, "apply", os.path.join(d, "patch.diff")])
         if r.returncode != 0:
+            # a later fix: commit moved the surrounding lines: let git merge the patch (3-way)
+            r = subprocess.run(["git", "-C", wt, "apply", "-3", os.path.join(d, "patch.diff")], capture_output=True)
+            if r.returncode != 0 or subprocess.run(["git", "-C", wt, "diff", "--check", "HEAD"], capture_output=True).returncode != 0:
+                subprocess.run(["git", "-C", wt, "reset", "-q", "--hard", "HEAD"], check=True)
+                r = subprocess.CompletedProcess([], 1)
+            else:
+                r = subprocess.CompletedProcess([], 0)
+        if r.returncode != 0:
             # /repo has moved on since the seed was written (a later fix: commit touches the same lines): test it on the
             # commit it was written against
             subprocess.run(["git", "-C", wt, "checkout", "-q", "--detach", meta["base_commit"]], check=True)
